@@ -39,7 +39,10 @@ for name in sorted(os.listdir(os.path.join(VERIF, 'seeded'))):
                     continue
                 if not ALL and p != pid and not (READS.get(p, set()) & patched):
                     continue
-                r = subprocess.run([os.path.join(VERIF, 'check'), p, '--no-evidence', '--src', scratch], capture_output=True, text=True, cwd=VERIF)
+                env = dict(os.environ)
+                if p != pid:
+                    env['VERIF_RX'] = 'off'      # bounded replay groups (one cargo build of the seeded tree each): for the seed's own property only
+                r = subprocess.run([os.path.join(VERIF, 'check'), p, '--no-evidence', '--src', scratch], capture_output=True, text=True, cwd=VERIF, env=env)
                 obl = sorted(set(re.findall(r'replay=\S*/replay/%s-([^ ]+?)\.json' % p, r.stdout)))
                 res[p] = {'exit': r.returncode, 'verdict': {0: 'quiet', 1: 'VIOLATION', 2: 'undecided'}.get(r.returncode, '?'), 'obligations': obl[:6]}
         finally:
